@@ -64,6 +64,9 @@ pub struct BatchResult {
     pub violations: Vec<(u64, u64, CaseOutcome)>, // (run index, run seed, outcome)
     pub tainted: BTreeMap<String, u64>,
     pub wall_s: f64,
+    /// Order-independent digest of (run index, trace hash, tape, steps, simulated time, first
+    /// violation signature) over all runs: equal for two executions iff every run was identical.
+    pub fingerprint: u64,
 }
 
 pub fn run_seed(seed: u64, property: &str, check: &str, run: u64) -> u64 {
@@ -140,6 +143,19 @@ fn flush(agg: &Mutex<Agg>, local: &mut Vec<(u64, u64, CaseOutcome)>, known_open:
         a.res.steps += out.steps;
         if out.inconclusive {
             a.res.inconclusive += 1;
+        }
+        {
+            let mut th = crate::rng::TraceHash::default();
+            for v in &out.tape {
+                th.add(*v as u64);
+            }
+            let mut sig = 0u64;
+            if let Some(v) = out.violations.first() {
+                for b in v.signature.bytes() {
+                    sig = sig.wrapping_mul(131).wrapping_add(b as u64);
+                }
+            }
+            a.res.fingerprint = a.res.fingerprint.wrapping_add(mix(&[i, out.trace_hash, th.0, out.steps, out.sim_time_us, sig, out.nontrivial as u64]));
         }
         a.traces.insert(out.trace_hash);
         if out.nontrivial {
